@@ -73,7 +73,7 @@ def run(ctx):
                 ctx.check(okw, 'C03.R1', 'KmipEngine.%s|%s' % (name, n.attr), m.site(n, fn), 'store/session factory used in %s' % name,
                           'the store engine / session factory is used outside __init__/_process_batch')
     ctx.count('data_session_uses', n_uses, 15)
-    ctx.count('query_sites', len(query_sites), 4)
+    ctx.count('query_sites', len(query_sites), 3)
     allowed_q = {'_get_object_type', CHOKE, LISTER, '_process_destroy'}
     for name, fn, call in query_sites:
         site = m.site(call, fn)
@@ -142,7 +142,7 @@ def run(ctx):
                 ctx.check(opm[1] == want, 'C03.R3', 'KmipEngine.%s|op-for-%s' % (name, hop[h]), site,
                           '%s loads under Operation.%s' % (hop[h], want),
                           'handler for %s checks access for Operation.%s; the policy model requires Operation.%s' % (hop[h], opm[1], want))
-    ctx.count('load_sites', n_loads, 16)
+    ctx.count('load_sites', n_loads, 10)
     lister_calls = [(n, c) for n, fn in m.methods.items() for c in walk_local(fn) if isinstance(c, ast.Call) and is_self_attr(c.func, LISTER)]
     ctx.count('list_sites', len(lister_calls))
     ctx.check(len(lister_calls) >= 1, 'C03.R3', 'KmipEngine|filtered-lister-unused', m.site(m.method(LISTER), m.method(LISTER)), 'the access-filtered lister is used', 'no handler obtains its candidates from the access-filtered lister')
@@ -543,7 +543,8 @@ def run(ctx):
                     ok = fresh and U(n._parent.value) == 'self._client_identity[0]' and fn.name in hop
                 ctx.check(ok, 'C03.R7', '%s|_owner-store' % q, site, 'owner of a freshly constructed object set from the client identity',
                           'the owner of an object is (re)assigned outside object creation, or not from the authenticated client identity')
-    ctx.count('owner_stores', n_owner, 6)
+    ctx.count('owner_stores', n_owner)
+    ctx.check(n_owner >= 1, 'C03.R7', 'kmip|owner-never-set', ENGINE, 'the owner field is assigned at object creation', 'no code sets the owner of new objects')
 
     # ---------------- R8 identity write-set
     fe = m.field_effects()
@@ -571,7 +572,7 @@ def run(ctx):
                           'identity = the credential the session established (process_request parameter)', 'the client identity is not taken from the session-established credential')
             else:
                 ctx.fail('C03.R8', 'KmipEngine.%s|_client_identity-store' % meth, site, 'the client identity is assigned in %s' % meth)
-    ctx.count('identity_stores', n_id, 3)
+    ctx.count('identity_stores', n_id, 1)
 
     # ---------------- R9 Locate provenance
     loc = m.method('_process_locate')
